@@ -614,7 +614,8 @@ def run_check(plugin_mod, tier, seed, replay=None):
             ev["coverage"]["coqchk_note"] = "coqchk did not report an empty axiom list; see summary"
     if hasattr(pl, "extra_evidence"):
         ev["coverage"].update(pl.extra_evidence())
-    if not replay and not os.environ.get("VERIF_NO_EVIDENCE"):      # (runs against a seeded change do not count as evidence)
+    scratch_tree = os.path.realpath(os.environ.get("VERIF_REPO") or "/repo") != os.path.realpath("/repo")
+    if not replay and not scratch_tree and not os.environ.get("VERIF_NO_EVIDENCE"):      # (runs against a seeded change do not count as evidence)
         os.makedirs(os.path.join(VERIF, "evidence"), exist_ok=True)
         json.dump(ev, open(os.path.join(VERIF, "evidence", prop + ".json"), "w"), indent=1, default=str)
     if hasattr(pl, "cleanup"):
